@@ -78,7 +78,7 @@ def index_case(rng):
     """__index / __newindex chains through tables and functions; raw access bypasses"""
     p = Prog()
     depth = rng.randint(1, 4)
-    ss = [p.local(["log"], [p.func(["tag"], p.block([p.ret([p.func(["t", "k", "v"], p.block([p.emit([p.id("tag"), p.id("k"), p.id("v")]), p.ret([p.bin("..", p.str("from-"), p.id("tag"))])]))])]))])]
+    ss = [p.local(["log"], [p.func(["tag"], p.block([p.ret([p.func(["t", "k", "v"], p.block([p.emit([p.id("tag"), p.id("t"), p.id("k"), p.id("v")]), p.ret([p.bin("..", p.str("from-"), p.id("tag"))])]))])]))])]
     names = []
     for i in range(depth + 1):
         nm = "c%d" % i
@@ -89,6 +89,7 @@ def index_case(rng):
         if rng.random() < 0.3:
             items.append(("k", _name(p, "shared"), p.str("shared%d" % i)))
         ss.append(p.local([nm], [p.table(items)]))
+    ss.append(p.emit([p.id(n) for n in names]))      # fixes the identity of every link before a handler reports its self
     for i in range(depth):
         kind = rng.choice(["table", "table", "function", "both"])
         mt = []
